@@ -89,7 +89,7 @@ func init() {
 	register(&Spec{Prop: "C04", RaceTier: true, QuickRuns: 2000, Level: "exploration", NeedsBubble: true, CrashIsViolation: true,
 		Rule: "one run = one UCI session of a polite GUI against a tape-drawn engine wiring and option set inside a synctest bubble: 3..22 commands (position startpos/fen/extended/repeated/shortened, every go variant, stop, isready, setoption, ucinewgame), with the controller interleaving command delivery, search progress (gate credits), hooked task releases, clock advances and consumer stalls from the tape; an obligation tracker demands exactly one legal bestmove per go (0000 only without legal move; go infinite only after stop), and a settle phase decides liveness. Non-trivial = at least one go and >= 10 scheduling events; distinct = hash of the (task, point)/stimulus sequence",
 		Real: saReal, Stub: saStub,
-		Assumptions: []string{"legality judged by verif/sim/rules", "scheduling freedom exists at the gate and at the simhook points; goroutines woken in the same step run in parallel until their next park point", "liveness is judged only in the settle phase (all tasks released fairly, hours of simulated time)"},
+		Assumptions: []string{"legality judged by verif/sim/rules", "scheduling freedom exists at the gate and at the simhook points; goroutines woken in the same step run in parallel until their next park point", "liveness is judged only in the settle phases: the ordinary one (all tasks released fairly, time passing to every known timer instant and beyond), and, when the evaluation budget is gone while a go that only a clock can end is open and its search has reported an iteration, a clock settle (every limit passes, every task released 80 times with 250 further evaluations each)"},
 		Run:         sa.SessionC04})
 }
 
